@@ -24,7 +24,8 @@ gen_mdp case (gen_mdp.arrays / impl/build.py:build_mdp work on it unchanged):
 
 Kernels are action dependent and, when nO == n, never symmetric as an n x n matrix, so that code
 indexing Ob[a][o][ns] or Ob[a][s][o] instead of Ob[a][ns][o] computes something else.
-Every state is reachable under msdm's reachable_states rule, so state_list == [0..n-1].
+Every state is reachable under msdm's reachable_states rule, so state_list == [0..n-1]
+(unless force_reachable=False).  Optional keys: obs_tiny, obs_near_twin, reward_scale (see gen_pomdp).
 """
 from fractions import Fraction as F
 
@@ -105,15 +106,53 @@ def _symmetric(mat):
 
 
 def gen_pomdp(rng, nmax=5, amax=3, omax=4, gamma=None, min_states=2, zero_entries=True,
-              nonpos=False, goal=True, absorbing_selfloop=.7, tiny=.4):
-    """tiny = probability that the POMDP gets very rare (2^-30 / 2^-40) observation entries"""
+              nonpos=False, goal=True, absorbing_selfloop=.7, tiny=0.0, near_twin=0.0, big_rewards=0.0,
+              force_reachable=True):
+    """All of the following are OPT-IN (default off; when off they consume no randomness, so the
+    default stream of cases is stable for every property that shares this generator):
+    tiny        probability that the POMDP gets very rare (2^-30 / 2^-40) observation entries (obs_tiny)
+    near_twin   probability that a "twin" kernel gets one column moved by 2^-30 in one row: two posteriors
+                that differ by ~1e-9 relative and must NOT be merged (obs_near_twin = [[a, ns, o1, o2, k]])
+    big_rewards probability that all rewards are scaled by 1000 or 2^16 (exactly representable)
+    force_reachable=False  leaves states unreachable from the initial distribution (for POMDPs whose
+                state list is given explicitly)"""
     while True:
-        case = _gen_once(rng, nmax, amax, omax, gamma, min_states, zero_entries, nonpos, goal, absorbing_selfloop)
+        case = _gen_once(rng, nmax, amax, omax, gamma, min_states, zero_entries, nonpos, goal, absorbing_selfloop,
+                         force_reachable)
         if case is not None:
             case["obs_tiny"] = []
-            if rng.random() < tiny:
+            if tiny and rng.random() < tiny:
                 _add_tiny(rng, case, omax)
+            if near_twin and rng.random() < near_twin:
+                _add_near_twin(rng, case)
+            if big_rewards and rng.random() < big_rewards:
+                f = rng.choice([1000, 2 ** 16])
+                case["reward"] = {k: str(F(r) * f) for k, r in case["reward"].items()}
+                case["reward_scale"] = f
             return case
+
+
+def _add_near_twin(rng, case):
+    n = case["n"]
+    case["obs_near_twin"] = []
+    for a in range(case["nA"]):
+        if case["obs_kinds"][a] != "twin":
+            continue
+        M = obs_arrays(case, range(case["nA"]), range(n), range(case["nO"]))
+        pairs = [(o1, o2) for o1 in range(case["nO"]) for o2 in range(o1 + 1, case["nO"])
+                 if all(M[a][x][o1] == M[a][x][o2] for x in range(n)) and any(M[a][x][o1] > 0 for x in range(n))]
+        if not pairs:
+            continue
+        o1, o2 = rng.choice(pairs)
+        ns = rng.choice([x for x in range(n) if M[a][x][o1] > 0])
+        eps = F(1, 2 ** 30)
+        row = case["obs"]["%d,%d" % (a, ns)]
+        for e in row:
+            if e[0] == o1:
+                e[1] = str(F(e[1]) - eps)
+            elif e[0] == o2:
+                e[1] = str(F(e[1]) + eps)
+        case["obs_near_twin"].append([a, ns, o1, o2, 30])
 
 
 def _add_tiny(rng, case, omax):
@@ -146,7 +185,8 @@ def _add_tiny(rng, case, omax):
         case["obs_tiny"].append([a, ns, o, k])
 
 
-def _gen_once(rng, nmax, amax, omax, gamma, min_states, zero_entries, nonpos, goal, absorbing_selfloop):
+def _gen_once(rng, nmax, amax, omax, gamma, min_states, zero_entries, nonpos, goal, absorbing_selfloop,
+              force_reachable=True):
     n = rng.randint(min_states, nmax)
     nA = rng.randint(1, amax)
     nO = rng.randint(1, omax)
@@ -215,7 +255,7 @@ def _gen_once(rng, nmax, amax, omax, gamma, min_states, zero_entries, nonpos, go
     # initial distribution; then make every state reachable (msdm's reachable_states rule)
     k = rng.randint(1, min(3, n))
     starts = rng.sample(range(n), k)
-    for _ in range(10):
+    for _ in range(10 if force_reachable else 0):
         case["init"] = [[s, "1"] for s in starts]
         unreached = [s for s in range(n) if s not in gen_mdp.reachable(case)]
         if not unreached:
@@ -228,7 +268,7 @@ def _gen_once(rng, nmax, amax, omax, gamma, min_states, zero_entries, nonpos, go
         if others:
             init.append([rng.choice(others), "0"])
     case["init"] = init
-    if len(gen_mdp.reachable(case)) != n:
+    if force_reachable and len(gen_mdp.reachable(case)) != n:
         return None
     return case
 
@@ -266,7 +306,7 @@ def _composition(rng, total, parts):
     return [b - a for a, b in zip([0] + cuts, cuts + [total])]
 
 
-def gen_beliefs(rng, case, n_grid=2, n_reach=3):
+def gen_beliefs(rng, case, n_grid=3, n_reach=3, tiny=False):
     """beliefs over states 0..n-1 as {"kind", "b": ["n/d"]*n, "dyadic": bool, "sparse": bool}:
     all vertices, faces (two-state beliefs), grid points k/8 with zero components, an interior
     grid point, beliefs with a tiny component 2^-30 (dyadic, so exact in floats), the initial distribution, beliefs supported on absorbing states (and one leaking
@@ -301,19 +341,20 @@ def gen_beliefs(rng, case, n_grid=2, n_reach=3):
     if A and len(A) < n:
         s0 = rng.choice([s for s in range(n) if not absf[s]])
         add("absorbing-leak", [F(7, 8) if s == A[0] else F(1, 8) if s == s0 else F(0) for s in range(n)])
-    # tiny components: positive mass far below any isclose tolerance
-    eps = F(1, 2 ** 30)
-    i, j = rng.sample(range(n), 2)
-    add("tiny", [1 - eps if x == i else eps if x == j else F(0) for x in range(n)])
-    g = [F(k, 8) for k in _composition(rng, 8, n)]
-    i = max(range(n), key=lambda x: g[x])
-    j = rng.choice([x for x in range(n) if x != i])
-    g[i] -= eps
-    g[j] += eps
-    add("tiny", g)
-    if A and len(A) < n:
-        s0 = rng.choice([s for s in range(n) if not absf[s]])
-        add("absorbing-leak-tiny", [1 - eps if s == A[0] else eps if s == s0 else F(0) for s in range(n)])
+    # tiny components (opt-in): positive mass far below any isclose tolerance
+    if tiny and n >= 2:
+        eps = F(1, 2 ** 30)
+        i, j = rng.sample(range(n), 2)
+        add("tiny", [1 - eps if x == i else eps if x == j else F(0) for x in range(n)])
+        g = [F(k, 8) for k in _composition(rng, 8, n)]
+        i = max(range(n), key=lambda x: g[x])
+        j = rng.choice([x for x in range(n) if x != i])
+        g[i] -= eps
+        g[j] += eps
+        add("tiny", g)
+        if A and len(A) < n:
+            s0 = rng.choice([s for s in range(n) if not absf[s]])
+            add("absorbing-leak-tiny", [1 - eps if s == A[0] else eps if s == s0 else F(0) for s in range(n)])
     base = [[F(x) for x in e["b"]] for e in out]
     tries = 0
     reach = 0
@@ -340,6 +381,10 @@ def features(case):
     f.update({
         "nO": case["nO"],
         "obs_tiny": bool(case.get("obs_tiny")),
+        "obs_near_twin": bool(case.get("obs_near_twin")),
+        "big_rewards": bool(case.get("reward_scale")),
+        "single_state": case["n"] == 1, "single_observation": case["nO"] == 1, "single_action": case["nA"] == 1,
+        "unreachable_states": len(gen_mdp.reachable(case)) < case["n"],
         "obs_zero_entries": any(M[a][ns][o] == 0 for a in range(case["nA"]) for ns in range(case["n"]) for o in range(case["nO"])),
         "obs_action_dependent": any(M[a] != M[0] for a in range(case["nA"])),
         "obs_uninformative_action": "uninformative" in case["obs_kinds"],
